@@ -142,8 +142,13 @@ def execute(scn):
         if p == 'n':
             return None
         if p == 'r':
-            raise scared.ResynchroError('no sync')
-        raise {'e': ZeroDivisionError, 't': TypeError, 'v': ValueError, 'k': UserBug}[p]('user bug')
+            raise scared.ResynchroError(*[('no sync',), (), ('a', 'b')][(i + scn['seed']) % 3])
+        # any Exception subclass, with any payload (no argument, one string, several, a non-string): code in the rejection path that looks at
+        # the exception object must cope with all of them
+        classes = [ZeroDivisionError, TypeError, ValueError, UserBug, IndexError, OSError, AssertionError, KeyError, RuntimeError, AttributeError,
+                   StopIteration, LookupError, UnicodeError, NotImplementedError]
+        K = classes[(i * 7 + scn['seed'] + 'etvk'.index(p)) % len(classes)]
+        raise K(*[(), ('user bug',), ('a', 2), (3,), (None,)][(i + scn['seed']) % 5])
 
     scratch = tempfile.mkdtemp(prefix='verif_sync_', dir=SCRATCH_ROOT)
     fn = os.path.join(scratch, 'out.ets')
